@@ -62,6 +62,12 @@ class _Recorder:
 
     def start(self):
         self.rec['started'] += 1
+        # what the launched run_file leaves behind when it completes: its result file
+        try:
+            with open(self.rec['args'][1], 'w') as f:
+                f.write('[]')
+        except OSError:
+            pass
 
     def join(self, *a):
         self.rec['joined'] += 1
@@ -84,13 +90,23 @@ def eval_case(case):
         for nm in names:
             with open(os.path.join(d, 'inputs', nm), 'w') as f:
                 f.write('{}')
+        # variants: plain; --delete-existing (jobs run one after the other, each leaving its result
+        # files); n_cores omitted (None -> all cpu_count() cores)
+        plan = []
         for trials in range(max(1, tpi_max), case['trials_max'] + 1):
+            ends = trials in (max(1, tpi_max), case['trials_max'])
+            for variant in (('plain', 'delete-existing', 'default-cores') if ends else ('plain',)):
+                plan.append((trials, variant))
+        for trials, variant in plan:
             _Recorder.launched = []
             err = None
+            shutil.rmtree(os.path.join(d, 'results'), ignore_errors=True)
+            cli.multiprocessing.cpu_count = (lambda: cores) if variant == 'default-cores' else (lambda: 64)
             try:
                 with contextlib.redirect_stdout(io.StringIO()):
                     for job in range(1, nodes + 1):
-                        fn(d, trials, nodes, job, cores, False)
+                        fn(d, trials, nodes, job, None if variant == 'default-cores' else cores,
+                           variant == 'delete-existing')
             except Exception as exc:          # "no configuration ... raises"
                 err = '%s: %s' % (type(exc).__name__, str(exc)[:120])
             res['evals'] += 1
